@@ -266,8 +266,13 @@ def master_specs(fam):
                 continue
             if tw["kind"] == "diff2x2" and tw["comp"] < len(g.get("components", [])):
                 t = list(g["components"][tw["comp"]]["t"])
-                t[0] *= tw["factor"]
-                t[3] *= tw.get("factor_y", 1)
+                if "entry" in tw:
+                    # exactly one entry of the 2x2 differs in this master (xx, xy, yx or yy)
+                    e = tw["entry"]
+                    t[e] = t[e] * tw["factor"] if t[e] else (tw["factor"] - 1)
+                else:
+                    t[0] *= tw["factor"]
+                    t[3] *= tw.get("factor_y", 1)
                 g["components"][tw["comp"]]["t"] = t
             elif tw["kind"] == "zero-length" and tw["contour"] < len(g.get("contours", [])):
                 c = g["contours"][tw["contour"]]
